@@ -335,7 +335,11 @@ def scenarios(c, label, limit=None, seed=0):
     if limit is not None and len(out) > limit:
         import random
         rnd = random.Random(seed)
-        out = rnd.sample(out, limit)
+        # stratified: EVERY input of the catalogue with all-accepting stubs (so one-shot iterators, look-alikes ... are never sampled
+        # away), the rest of the budget at random
+        core = [t for t in out if all(rn == "never" for rn, _ in t[2])]
+        rest = [t for t in out if t not in core]
+        out = core + rnd.sample(rest, max(0, min(len(rest), limit - len(core))))
     for iname, ifac, combo in out:
         stubs = {}
         for n, (rn, rf) in zip(names, combo):
